@@ -23,6 +23,8 @@ OBLIGATIONS = [NS + t for t in [
     "repo_bounds", "rEff_truncated", "rEff_support", "uniform_exposed_range", "position_prior", "guesses_scales",
     "zero_radius_degenerate", "multi_names",
 ]]
+# translated source text proved equal to the model definitions this property's theorems are about
+GEN_KERNELS = ["generate_prior"]
 MIRRORED_FILES = ["pysersic/priors.py", "pysersic/rendering.py"]
 ASSUMPTIONS = [
     "photutils data_properties (segment flux, half-light radius, windowed centroid, orientation) is outside the model: its outputs are observed by the oracle only",
